@@ -23,8 +23,9 @@ EXTENDS PduStore, SequencesExt
 
 CONSTANTS Tscf, Udp, Fd, Count       \* configuration of the run (0/1, 0/1, 0/1, messages per packet)
 VARIABLES inq, pending, wire, outq,
-          nsent     \* packets sent so far (the talker numbers them: sequence_num, UDP encapsulation sequence)
-tvars == <<inq, pending, wire, outq, nsent>>
+          nsent,    \* packets sent so far in this run (the talker numbers them: sequence_num, UDP encapsulation sequence)
+          start     \* the talker's 32-bit packet counter when the run begins, as 4 bytes (everything it sent before is abstracted into it)
+tvars == <<inq, pending, wire, outq, nsent, start>>
 
 G(m, h, v, f) == Nat16(GetSem(m, h, v, f))        \* small fields as naturals
 Id29(m, h) == SubBytes(GetSem(m, h, "Can", "can_identifier"), 4, 4)
@@ -57,22 +58,26 @@ CfOk(p) ==
   /\ G(p, CfOff, CfView, CfLenField) = Len(p) - CfOff - HdrLen[CfView]
 Decode(p) == IF CfOk(p) THEN Walk(p, CfOff + HdrLen[CfView], Len(p)) ELSE BadPacket
 \* the talker numbers its packets
-Numbered(p, k) == /\ G(p, CfOff, CfView, "sequence_num") = k % 256
-                  /\ (Udp = 1 => SubBytes(p, 0, 4) = SubBytes(V64(k), 4, 4))
+\* start + k modulo 2^32 on bytes (TLC's integers have 32 bits; k is small)
+Add32(b, k) == LET lo == b[3] * 256 + b[4] + k
+                   hi == (b[1] * 256 + b[2] + lo \div 65536) % 65536
+               IN  << hi \div 256, hi % 256, (lo % 65536) \div 256, lo % 256 >>
+Numbered(p, k) == /\ G(p, CfOff, CfView, "sequence_num") = (start[4] + k) % 256
+                  /\ (Udp = 1 => SubBytes(p, 0, 4) = Add32(start, k))
 
-Init == inq = << >> /\ pending = << >> /\ wire = << >> /\ outq = << >> /\ nsent = 0
+Init == inq = << >> /\ pending = << >> /\ wire = << >> /\ outq = << >> /\ nsent = 0 /\ start = <<0, 0, 0, 0>>
 Read(f) ==
   /\ Len(pending) < Count
-  /\ inq' = Append(inq, f) /\ pending' = Append(pending, f) /\ UNCHANGED <<wire, outq, nsent>>
+  /\ inq' = Append(inq, f) /\ pending' = Append(pending, f) /\ UNCHANGED <<wire, outq, nsent, start>>
 Send(p) ==
   /\ Len(pending) = Count
   /\ Decode(p) = pending                       \* the packet carries exactly the frames read, CF length right
   /\ Numbered(p, nsent)
-  /\ wire' = Append(wire, p) /\ pending' = << >> /\ nsent' = nsent + 1 /\ UNCHANGED <<inq, outq>>
+  /\ wire' = Append(wire, p) /\ pending' = << >> /\ nsent' = nsent + 1 /\ UNCHANGED <<inq, outq, start>>
 Deliver(p, fs) ==
   /\ wire # << >> /\ p = Head(wire)
   /\ fs = Decode(p)                            \* the listener wrote exactly what the packet means
-  /\ outq' = outq \o fs /\ wire' = Tail(wire) /\ UNCHANGED <<inq, pending, nsent>>
+  /\ outq' = outq \o fs /\ wire' = Tail(wire) /\ UNCHANGED <<inq, pending, nsent, start>>
 
 Transparent == IsPrefix(outq, inq)
 =============================================================================
